@@ -17,7 +17,7 @@ STUBS = CP.STUBS + ["networkx.dag_longest_path: real for structures I, A, E; rep
                     "larger ones (any path may be the critical one for this property)"]
 ASSUMPTIONS = CP.ASSUMPTIONS + ["byte-level .json/.json.gz encoding, update_trace_rank and create_rank_to_trace_dict are "
                                 "I/O + regular expressions over file lines: outside the symbolic claim (DESIGN §6 C20)"]
-BUDGET_S = {"quick": 420, "thorough": 3000}
+BUDGET_S = {"quick": 420, "thorough": 1200}
 BOUNDS = {
     "quick": "overlay of the critical path on 4 structures (0..2 launch/kernel pairs, stream synchronisation) x option "
              "combinations {all events + critical edges, all events + all edges, critical events only}, zero-weight launch "
